@@ -35,6 +35,14 @@ pub enum Sel {
     Custom(fn(&File, &mut Registry, &mut String) -> Res<()>),
     /// literal Lean text
     Raw(&'static str),
+    /// top-level const `rust_name` taken from the file whose path contains `file_substr`, emitted as
+    /// `lean_name`; later references to `rust_name` resolve to it (file-local constants that exist
+    /// under the same name in several files)
+    ConstAs(&'static str, &'static str, &'static str),
+    /// register a unit enum that another generated module (listed in `imports`) already emits
+    ExternEnum(&'static str),
+    /// register a struct that another generated module already emits
+    ExternStruct(&'static str),
 }
 
 pub struct Unit {
@@ -155,9 +163,11 @@ fn eval_discr(e: &Expr) -> Option<i128> {
 
 fn translate_unit(repo: &Path, u: &Unit, reg: &mut Registry) -> Res<String> {
     let mut files = vec![];
+    let mut file_names: Vec<String> = vec![];
     for f in std::iter::once(&u.file).chain(u.more_files.iter()) {
         let src = std::fs::read_to_string(repo.join(f)).map_err(|e| format!("{}: {}", f, e))?;
         files.push(syn::parse_file(&src).map_err(|e| format!("{}: parse error {}", f, e))?);
+        file_names.push(f.to_string());
     }
     let mut out = String::new();
     writeln!(out, "-- GENERATED by /verif/tools/translate from /repo/{} — do not edit.", u.file).unwrap();
@@ -329,7 +339,7 @@ fn translate_unit(repo: &Path, u: &Unit, reg: &mut Registry) -> Res<String> {
             Sel::FromImpl(from, to) => {
                 let (sig, body) = files.iter().find_map(|f| find_from_impl(f, from, to)).ok_or(format!("From<{}> for {} not found", from, to))?;
                 let lean_name = format!("{}.into_{}", from, to);
-                reg.aliases.insert("Self".into(), Ty::Int(int_ty(to).ok_or("From target must be int")?));
+                reg.aliases.insert("Self".into(), match int_ty(to) { Some(i) => Ty::Int(i), None => Ty::Named(to.to_string()) });
                 let mut tr = FnTr { reg, self_ty: None, ret: Ty::Unit, counter: 0, fn_prefix: lean_name.clone(), local_fns: HashMap::new(), extra_defs: vec![] };
                 let r = tr.function(sig, body, &lean_name);
                 let (text, fsig) = r.map_err(|e| format!("fn {}: {}", lean_name, e))?;
@@ -340,6 +350,50 @@ fn translate_unit(repo: &Path, u: &Unit, reg: &mut Registry) -> Res<String> {
             }
             Sel::Custom(f) => {
                 f(&files[0], reg, &mut out)?;
+            }
+            Sel::ConstAs(file_substr, rust_name, lean_name) => {
+                let idx = file_names.iter().position(|n| n.contains(file_substr)).ok_or(format!("no file matching {}", file_substr))?;
+                let c = match find_item(&files[idx].items, &|it| matches!(it, Item::Const(c) if c.ident == rust_name)) {
+                    Some(Item::Const(c)) => c,
+                    _ => return Err(format!("const {} not found in {}", rust_name, file_names[idx])),
+                };
+                let mut tr = FnTr { reg, self_ty: None, ret: Ty::Unit, counter: 0, fn_prefix: String::new(), local_fns: HashMap::new(), extra_defs: vec![] };
+                let t = tr.ty(&c.ty)?;
+                let mut st = vec![];
+                let mut env = HashMap::new();
+                let (term, _) = tr.ex(&c.expr, &mut env, &mut st, Some(t.clone()))?;
+                if !st.is_empty() {
+                    return Err(format!("const {} in {} is not a literal expression", rust_name, file_names[idx]));
+                }
+                writeln!(out, "def {} : {} := {}\n", lean_name, t.lean(), term).unwrap();
+                reg.consts.insert(rust_name.to_string(), (t, lean_name.to_string()));
+            }
+            Sel::ExternEnum(name) => {
+                let it = find_in(&|it| matches!(it, Item::Enum(e) if e.ident == name)).ok_or(format!("enum {} not found", name))?;
+                if let Item::Enum(e) = it {
+                    let mut vars = vec![];
+                    let mut next: i128 = 0;
+                    for v in &e.variants {
+                        let d = match &v.discriminant {
+                            Some((_, ex)) => eval_discr(ex).ok_or("non-literal discriminant")?,
+                            None => next,
+                        };
+                        next = d + 1;
+                        vars.push((v.ident.to_string(), Some(d)));
+                    }
+                    reg.enums.insert(name.to_string(), vars);
+                }
+            }
+            Sel::ExternStruct(name) => {
+                let it = find_in(&|it| matches!(it, Item::Struct(s) if s.ident == name)).ok_or(format!("struct {} not found", name))?;
+                if let Item::Struct(sct) = it {
+                    let tr = FnTr { reg, self_ty: Some(name.to_string()), ret: Ty::Unit, counter: 0, fn_prefix: String::new(), local_fns: HashMap::new(), extra_defs: vec![] };
+                    let mut fields = vec![];
+                    for f in &sct.fields {
+                        fields.push((f.ident.as_ref().ok_or("tuple struct")?.to_string(), tr.ty(&f.ty)?));
+                    }
+                    reg.structs.insert(name.to_string(), fields);
+                }
             }
         }
     }
